@@ -29,6 +29,31 @@ def snapshot(scfg):
     }
 
 
+def same_block(a, b):
+    """unchanged block: the identical object, or an equal re-creation of it
+    (same type and fields; regions must still own the same subregion object)."""
+    if a is b:
+        return True
+    if a is None or b is None or type(a) is not type(b):
+        return False
+    import dataclasses
+
+    for f in dataclasses.fields(a):
+        x, y = getattr(a, f.name), getattr(b, f.name)
+        if f.name in ("subregion", "parent_region"):
+            if f.name == "subregion" and x is not y:
+                return False
+            continue
+        if x is y:
+            continue
+        try:
+            if x != y:
+                return False
+        except Exception:
+            return False
+    return True
+
+
 def _rerouted(old, backedges, S):
     """positions of old targets that are rerouted: in S and not a declared back edge."""
     return [i for i, t in enumerate(old) if t in S and t not in backedges]
@@ -86,7 +111,7 @@ def post_insert_block(pre, scfg, new_name, predecessors, successors, block_type)
     for k, b in pre["blocks"].items():
         if k in P:
             continue
-        if g[k] is not b:
+        if not same_block(g[k], b):
             raise Viol("C14", "unrelated_block_replaced", (k,))
     for p in P:
         old, oldbe = pre["targets"][p]
@@ -121,7 +146,7 @@ def post_insert_control(pre, scfg, new_name, predecessors, successors):
     for k, b in pre["blocks"].items():
         if k in P:
             continue
-        if g.get(k) is not b:
+        if not same_block(g.get(k), b):
             raise Viol("C14", "unrelated_block_replaced", (k,))
     used_assign = set()
     values = set()
@@ -182,7 +207,7 @@ def post_join_returns(pre, scfg):
     exits_before = [k for k, (t, be) in pre["targets"].items()
                     if not [x for x in t if x not in be]]
     if len(exits_before) <= 1:
-        if list(g) != pre["order"] or any(g[k] is not b for k, b in pre["blocks"].items()):
+        if list(g) != pre["order"] or any(not same_block(g[k], b) for k, b in pre["blocks"].items()):
             raise Viol("C14", "join_returns_not_a_noop", (exits_before,))
         return "noop"
     exits_after = [k for k, b in g.items() if not b.jump_targets]
@@ -204,7 +229,7 @@ def post_join_returns(pre, scfg):
             if cur != e and (cur in pre["blocks"] or steps > 10):
                 raise Viol("C14", "former_exit_path_leaves_inserted_blocks", (x, cur))
     for k, b in pre["blocks"].items():
-        if k not in exits_before and g.get(k) is not b:
+        if k not in exits_before and not same_block(g.get(k), b):
             raise Viol("C14", "unrelated_block_replaced", (k,))
     return "joined"
 
@@ -257,6 +282,6 @@ def post_join_tails_and_exits(pre, scfg, tails, exits, result):
             if s not in landed:
                 raise Viol("C14", "tail_exit_arc_lost", (p, s, sorted(x for x in landed if x)))
     for k, b in pre["blocks"].items():
-        if k not in T and g.get(k) is not b:
+        if k not in T and not same_block(g.get(k), b):
             raise Viol("C14", "unrelated_block_replaced", (k,))
     return "ok" if narcs else "ok_no_arcs"
